@@ -191,6 +191,11 @@ class MG(Native):
         return False
 
 
+def _roles_frame(m, tag):
+    from .roles import frame_token
+    return frame_token(m, tag)
+
+
 class World:
     compose_prune = False
 
@@ -258,7 +263,7 @@ class World:
         # must be decided with `is None`
         st = Obj(None, {"__class__": cls}, name=f"store_{nm}", truthy=False)
         self.stores[id(node)] = st
-        self.mapping[node] = Obj(self.C["RegistryValue"], {"value_store": st, "is_source": is_source, "stack_frame": f"regframe-{nm}"})
+        self.mapping[node] = Obj(self.C["RegistryValue"], {"value_store": st, "is_source": is_source, "stack_frame": _roles_frame(self.m, f"regframe-{nm}")})
 
     def apply(self, stale_nodes, output_node):
         m, rr = self.m, self.rr
@@ -427,7 +432,7 @@ def rule_edge_effect_table(ctx, rid, rr, rid_fresh=None, rid_frames=None):
                    f"required set is {sorted(w.role(x) for x in req)}", case)
             if rid_frames:
                 frames = {w.role(x): x.attrs.get("stack_frame") for x in rn + [y for y in wn if w.role(y) == "W[N]"]}
-                okf = all(v == "regframe-N" for v in frames.values()) and bool(frames)
+                okf = all(getattr(v, "name", v) == "regframe-N" for v in frames.values()) and bool(frames)
                 ctx.ob(rid_frames, f"{rw.short}/entry-frame[{case}]", okf, loc(rw),
                        "store read/write calls carry the registry entry's stack frame" if okf else
                        f"store calls carry {frames} instead of the registry entry's frame", case)
